@@ -21,7 +21,7 @@ suite green (288/288):
   refactor produces: an off-by-one at a threshold, a dropped state guard, two
   swapped fields, one DFA cell, ...). Mutants that turned out to be equivalent
   were removed, not kept as "misses".
-* `seeded/<ID>/`, `seeded/<ID>b/` ... `seeded/<ID>e/` - five rounds of one change per property, each made by an **independent agent** that
+* `seeded/<ID>/`, `seeded/<ID>b/` ... `seeded/<ID>f/` - six rounds of one change per property, each made by an **independent agent** that
   was given only the property text and a scratch worktree (nothing from
   `/verif`), asked for a change that needs something specific to manifest (an
   interleaving, a fault at a particular point, a multi-step sequence, an unusual
@@ -30,7 +30,11 @@ suite green (288/288):
   `tools/seedtest.sh` (patch applies to a clean checkout, demo passes/fails as
   claimed, pinned suite still 288/288) before keeping it.
 
-First contact with the 20 seeded changes (quick tier, before any strengthening):
+Across the six rounds 66 of the 120 seeded changes were caught on first contact (11, 12, 10, 10, 13, 10 of 20), the
+other 54 pointed at generator or oracle gaps that were then closed - each table below says which - and five of them led to
+genuine defects of the unchanged tree (fixed, §5.1).
+
+First contact with the first 20 seeded changes (quick tier, before any strengthening):
 11 caught at once (C01 C03 C05 C07 C08 C09 C12 C15 C16 C17 C19), 8 missed
 (C02 C04 C06 C10 C11 C13 C18 C20) and one turned a harness weakness into an
 exit-2 harness error (C14: the jitter was not a pure function of the case).
@@ -109,6 +113,24 @@ quick tier, replays off: 13 caught at once (C01e C02e C03e C05e C06e C07e C09e C
 | C13e | asyncio RawSocket client: undefined handshake error code raises KeyError | the handshake table is complete in the thorough tier, but the quick tier's seed-selected half missed the 11 values | the 256 values with the magic first octet are always enumerated |
 | C18e | `check_types=True` wrapper turns any TypeError of the procedure into `type_check_error` | default registrations only; no TypeError-derived classes | registrations with `check_types=True`; defined and undefined classes deriving from TypeError |
 | C20e | forged encrypted ERROR surfaces as the class the caller mapped to the envelope URI | the caller never registered classes | caller maps the error URIs to classes: genuine error arrives as that class, every forgery as an encryption error |
+
+A **sixth round** (`seeded/<ID>f/`; five earlier summaries given, "make it subtle": boundary on a rarely hit branch, wrong operand
+of a symmetric pair, state reset in one path but not in its twin) - first contact, quick tier, replays off: 10 caught at once
+(C01f C02f C03f C04f C07f C09f C13f C14f C16f C18f; C09f by bringing the worker down with SIGSEGV, which is now reported as a
+violation instead of a harness error), 10 missed:
+
+| prop | seeded change needs | gap in my check | strengthening |
+|---|---|---|---|
+| C05f | a close reason of exactly one octet is dropped from the report of a clean close | reasons were empty or >= 3 octets | reasons of 1 and 2 octets (ASCII and multi-byte) |
+| C06f | after the session ended, unsubscribing a non-last handler of a shared subscription id succeeds | each subscribe got its own id; no unsubscribe among the calls made after the end | subscriptions of a history share one id (same topic); up to three still-attached handlers are unsubscribed after the end: must raise |
+| C08f | six-element INVOCATION whose fifth element is an opaque payload is accepted (sixth element ignored) | the element-count rule ignored the payload form | payload form: the opaque payload must be the last element |
+| C10f | explicit `receive_progress: false` hands the endpoint a progress callback | the flag was only ever absent or true | explicit `false` in a third of the invocations |
+| C11f | with a single handler the live list is iterated: a handler subscribed from inside the callback (router confirming synchronously) also gets the current event | no subscribe from inside handlers; no synchronous router in C11 | behaviour "subscribe one more handler to the same topic inside the callback", SUBSCRIBED delivered from inside `send()` with the same id |
+| C12f | a client that offered no compression ignores the response's extension header | negative handshakes always had an offer | client without offers x all bad responses (+ valid ones under a declining policy) |
+| C15f | `sendFrame(payload, payload_len=N)` masks the short pattern once and repeats the masked octets | the frame API with explicit length was not driven | enumerated job over payload and `payload_len` lengths with own / explicit / zero key - which exposed a genuine defect: with an explicit key the header lacks the key octets (fixed, §5.1) |
+| C17f | client factory ignores `autoPingRestartOnAnyTraffic=False` | with that option off the peer always answered with pongs | peer answers with data only while the connection is configured so that only pongs count: must be dropped |
+| C19f | `check_totp` normalises the ticket through `int()`: altered tickets verify | only whole wrong codes were tried | every single-bit alteration and several re-spellings of a genuine ticket |
+| C20f | callee encrypts progressive YIELDs with the originator box: in clear with a responder-only keyring | the callee never produced progressive results | the endpoint emits a progressive result; the progressive YIELD must be encrypted and free of the marker |
 
 Round 4 also produced two mutants that do not terminate (C15d on the receive path, C02d under interleaving): a check
 that hangs is useless, so every case / machine step / enumeration block now runs under a CPU-time guard (150 s of CPU of
